@@ -69,3 +69,37 @@ M.fields({'NavOneChain.handle': SeqT(INST)})
 M.klass('NavOneChain', bases=[])
 M.contract('xtuml.meta.NavOneChain.__call__@noargs', [('self', NAV1)], returns=INST, statics={'args': PyTuple(())},
            ensures={'first-navigated-instance-or-none': 'result is (self.handle[0] if len(self.handle) > 0 else None)'}, modifies=[])
+
+# ---- navigation that hops over an association (link) class: every link instance counts, not only the first
+M.use('contracts.oset_client')
+M.uninterpreted('assoc_link1', [MC, VAL, VAL, VAL], LINK)
+M.uninterpreted('assoc_link2', [MC, VAL, VAL, VAL], LINK)
+M.contract('xtuml.meta.Link.navigate', [('self', LINK), ('instance', INST)], returns=SeqT(INST), trusted=True,
+           reason='contracts.c02 (proved there)', ensures={'partners-in-link-order': 'result == partners(self, instance)'}, modifies=[])
+M.contract('xtuml.meta.MetaClass._find_assoc_links', [('self', MC), ('kind', VAL), ('rel_id', VAL), ('phrase', VAL, "''")], returns=TupT(LINK, LINK),
+           trusted=True, reason='assumed: the pair of links through the association class (bounded c09 item navigate); abstract here',
+           ensures={'the-two-hops': 'result[0] is assoc_link1(self, kind, rel_id, phrase) and result[1] is assoc_link2(self, kind, rel_id, phrase) '
+                                    'and result[0] is not None and result[1] is not None'},
+           raises=[], modifies=[])
+M.contract('_collections_abc.MutableSet.__ior__@seq', [('self', OSET), ('it', SeqT(INST))], returns=OSET, trusted=True,
+           reason='proved in contracts.c17 together with the representation invariant; restated over the abstract view',
+           requires={'elements': 'all(x is not None for x in it)'},
+           ensures={'returns-self': 'result is self',
+                    'old-elements-keep-their-places': 'len(self.view) >= len(old(self.view)) and all(self.view[j] is old(self.view)[j] for j in range(0, len(old(self.view))))',
+                    'all-arrivals-present': 'all(x in self.view for x in it)',
+                    'nothing-else': 'all(x in old(self.view) or x in it for x in self.view)'},
+           modifies=['self.view'])
+M.contract('xtuml.meta.MetaClass.navigate@across-a-link-class', [('self', MC), ('inst', INST), ('kind', STR), ('rel_id', VAL), ('phrase', STR, "''")],
+           returns=OSET,
+           lets={'l1': 'assoc_link1(self, kind, rel_id, phrase)', 'l2': 'assoc_link2(self, kind, rel_id, phrase)'},
+           requires={'not-a-direct-link': '(upper(kind), rel_id, phrase) not in self.links',
+                     'partners-are-instances': 'all(all(x is not None for x in partners(l2, y)) for y in anyref("Class"))',
+                     'partner-sets-exist': 'all(implies(k in l2._dict_, allocated(l2._dict_[k])) and implies(k in l1._dict_, allocated(l1._dict_[k])) for k in anyref("Class"))'},
+           ensures={'every-instance-behind-any-link-instance-and-nothing-else':
+                    'result is not None and fresh(result) and all((x in result.view) == any(x in partners(l2, partners(l1, inst)[j]) for j in range(0, len(partners(l1, inst)))) for x in anyref("Class"))',
+                    },
+           modifies=[],
+           loops={0: Loop(inv={'walks-the-link-instances': '_seq == partners(l1, old(inst))',
+                               'collected-so-far': 'inst_set is not None and fresh(inst_set) and all((x in inst_set.view) == any(x in partners(l2, _seq[j]) for j in range(0, _i)) for x in anyref("Class"))',
+                               'other-sets-untouched': 'all(implies(s is not inst_set, s.view == old(s.view)) for s in anyref("OrderedSet"))'},
+                          modifies=['OrderedSet.view'])})
